@@ -74,3 +74,15 @@ _call_args = {}
 def call_arg(contract, name):
     """argument passed at the last call of a stubbed callee (native replay)"""
     return _call_args[contract][name]
+
+
+def ideal(tag, outlen, *args):
+    """native side of the idealised functions: the value the solver model chose"""
+    return bytes(_next('bytes'))
+
+
+_call_rets = {}
+
+
+def call_ret(contract):
+    return _call_rets[contract]
